@@ -835,6 +835,20 @@ pub fn main<P: Property>() -> ! {
             worker::<P>(tier, idx, seed, &out)
         }
         Some("replay") => replay::<P>(Path::new(&args[2])),
+        Some("signatures") => {
+            // development aid: which known-finding signatures does the case of a replay file carry?
+            let v: Value = serde_json::from_str(&std::fs::read_to_string(&args[2]).unwrap_or_default()).unwrap_or(Value::Null);
+            match serde_json::from_value::<P::Case>(v["case"].clone()) {
+                Ok(c) => {
+                    println!("{:?}", P::signatures(&c));
+                    0
+                }
+                Err(e) => {
+                    eprintln!("bad case: {e}");
+                    2
+                }
+            }
+        }
         Some("fuzz-case") => big_stack({
             let (a, b) = (PathBuf::from(&args[2]), PathBuf::from(&args[3]));
             move || fuzz_case::<P>(&a, &b)
